@@ -14,6 +14,11 @@ THEOREMS = [
     "BeyondVerif.C19.raan_ltan_inverse",
     "BeyondVerif.C19.raan_ltan_inverse_in_turn",
     "BeyondVerif.C19.ltan_raan_ranges",
+    "BeyondVerif.C19.ltan_raan_mismatch",
+    "BeyondVerif.C19.orb2ltan_source",
+    "BeyondVerif.C19.ltan_type_dispatch_source",
+    "BeyondVerif.C19.orb2ltan_inverse",
+    "BeyondVerif.C19.orb2ltan_type_dropped_defect",
     "BeyondVerif.C19.walker_count",
     "BeyondVerif.C19.walker_count_general",
     "BeyondVerif.C19.walker_fleet_mem",
@@ -118,7 +123,7 @@ NOT_COVERED = [
     "existence and uniqueness of the Lambert root, termination of the 0.05 scan and convergence of the Newton iteration (hypotheses of the theorems; exercised by the oracle only)",
     "that the universal-variable formulation (Kepler's universal equation + Lagrange coefficients f, g) is the two-body flow (classical result, C05's domain; what IS proved: the returned state satisfies that equation for the requested time and r1 = f r0 + g v0); the oracle propagates with an independent universal-variable Kepler solver and with the Kepler propagator",
     "lamDF is the derivative of lamF (Newton would merely converge more slowly otherwise): not proved",
-    "_mean_sun_raan / _true_sun_raan themselves (the theorems hold for an arbitrary sun angle), orb2ltan, sso_frozen / frozen, beta_limit, flyby (which references undefined names and cannot run)",
+    "_mean_sun_raan / _true_sun_raan themselves (the theorems hold for an arbitrary sun angle), sso_frozen / frozen, beta_limit, flyby (which references undefined names and cannot run)",
     "theta of the B-plane (observed while adding coordinate-plane hyperbolas: for an equatorial hyperbola B is parallel to T, the arccos argument is +-1 +- 1 ulp and theta is 0, pi or NaN "
     "according to rounding, in the code and in the model alike; theta is not part of the property statement)",
     "Orbit.propagate / Orbit.iter themselves (`if self.propagator.orbit is not self: self.propagator.orbit = self`, orbits/orbit.py): part of the J2Obj model by description, exercised by the history "
@@ -280,6 +285,32 @@ def accessor_stmts(path, cls, name):
     return get, set_
 
 
+def fn_stmts(path, name):
+    """source text of the statements of the module-level function `name` (docstring dropped), with its argument list first"""
+    tree = ast.parse(open(path).read())
+    f = next(n for n in tree.body if isinstance(n, ast.FunctionDef) and n.name == name)
+    return ["def " + name + "(" + ast.unparse(f.args) + ")"] + [ast.unparse(s_) for s_ in f.body if not (isinstance(s_, ast.Expr) and isinstance(s_.value, ast.Constant))]
+
+
+def ltan_dispatch(path):
+    """the `if type == …` statements of raan2ltan and ltan2raan (one line each, 'function: test -> assignment' per branch)"""
+    tree = ast.parse(open(path).read())
+    out = []
+    for name in ("raan2ltan", "ltan2raan"):
+        f = next(n for n in tree.body if isinstance(n, ast.FunctionDef) and n.name == name)
+        for st in f.body:
+            node = st
+            while isinstance(node, ast.If):
+                out.append(f"{name}: {ast.unparse(node.test)} -> " + "; ".join(ast.unparse(b) for b in node.body))
+                if len(node.orelse) == 1 and isinstance(node.orelse[0], ast.If):
+                    node = node.orelse[0]
+                else:
+                    if node.orelse:
+                        out.append(f"{name}: else -> " + "; ".join(ast.unparse(b) for b in node.orelse))
+                    node = None
+    return out
+
+
 TIMEDELTA_FILES = [("utils", "lambert.py"), ("utils", "leo.py"), ("utils", "ltan.py"), ("utils", "constellation.py"), ("utils", "beta.py"),
                    ("utils", "interplanetary.py"), ("propagators", "j2.py")]
 
@@ -340,6 +371,10 @@ def extract(ctx):
     body = "\n".join([
         fn_def(T, "raan2ltan", ["raan", "sun_raan"], "raan2ltan"),
         fn_def(T, "ltan2raan", ["ltan", "sun_raan"], "ltan2raan"),
+        "/-- the statements of `orb2ltan`, as text: which date, which right ascension and which `type` it hands to `raan2ltan` -/\n"
+        "def orb2ltanBody : List String := " + lean_strs(fn_stmts(T, "orb2ltan")) + "\n\n"
+        "/-- how `raan2ltan` / `ltan2raan` choose the sun angle from `type`, as text (the `if` statements of the two functions) -/\n"
+        "def ltanTypeDispatch : List String := " + lean_strs(ltan_dispatch(T)) + "\n",
     ])
     ch += py2lean.instantiate(core.LEAN, "LtanFn", body, "beyond/utils/ltan.py")
     W = src("utils", "constellation.py")
@@ -1086,6 +1121,24 @@ def check_ltan(out, rng):
     back = float(ltan2raan(date, l, ty))
     if not (0 <= l < 86400 + 1e-9 and circ(back, raan, TWO_PI) < 1e-10):
         out.fail("raan-roundtrip-" + ty, "ltan2raan(raan2ltan(raan)) differs from raan modulo 2 pi", inp, observed=back, expected=raan % TWO_PI)
+    # orbit-level entry point: orb2ltan(orb, type) must be raan2ltan of the orbit's own date and EME2000 node with the SAME type
+    from beyond.utils.ltan import orb2ltan
+    from beyond.orbits import Orbit
+    fr = rng.choice(["EME2000", "TEME", "MOD", "EME2000"])
+    kep = [rng.uniform(6.8e6, 9e6), rng.uniform(0.001, 0.1), rng.uniform(0.3, 2.8), rng.uniform(0.05, 6.2), rng.uniform(0, 6.2), rng.uniform(0, 6.2)]
+    orb = Orbit(kep, date, "keplerian", fr, None)
+    if rng.random() < 0.5:
+        orb = orb.copy(form="cartesian")
+    node = float(orb.copy(frame="EME2000", form="keplerian").raan)
+    inp2 = {"date": str(date), "type": ty, "frame": fr, "form": orb.form.name, "kep": kep}
+    for how, got in (("explicit", float(orb2ltan(orb, ty))),) + ((("default", float(orb2ltan(orb))),) if ty == "mean" else ()):
+        out.count(key=("orb2ltan", str(date), ty, fr, how, kep[3]), kind="orb2ltan-" + ty)
+        want = float(raan2ltan(date, node, ty))
+        if not circ(got, want, 86400) < 1e-6:
+            out.fail("orb2ltan-" + ty + "-" + how, "orb2ltan(orb, type) is not raan2ltan(orb.date, node in EME2000, type)", inp2, observed=got, expected=want)
+        back = float(ltan2raan(date, got, ty))
+        if not circ(back, node, TWO_PI) < 1e-9:
+            out.fail("orb2ltan-roundtrip-" + ty + "-" + how, "ltan2raan(date, orb2ltan(orb, type), type) differs from the orbit's node modulo 2 pi", inp2, observed=back, expected=node)
 
 
 # ---------------------------------------------------------------- Walker
